@@ -138,8 +138,54 @@ func GenModule(t *rapid.T, o GenOpts) *Module {
 		if n := len(g.mod.Identities); n > 0 && rapid.IntRange(0, 2).Draw(t, "submodule?") == 0 {
 			g.mod.SubIdents = rapid.IntRange(1, n).Draw(t, "sub-identities")
 		}
+		// some top-level definitions (not the first) are written in the submodule; they follow the module's own
+		if len(g.mod.Top) > 1 && rapid.IntRange(0, 3).Draw(t, "sub-nodes?") == 0 {
+			var stay, moved []*Node
+			for i, n := range g.mod.Top {
+				if i > 0 && !usesLeafref(n) && !isLeafrefTarget(g.mod.Top, n) && rapid.Bool().Draw(t, "in-submodule") {
+					n.Sub = true
+					moved = append(moved, n)
+				} else {
+					stay = append(stay, n)
+				}
+			}
+			g.mod.Top = append(stay, moved...)
+		}
 	}
 	return g.mod
+}
+
+func usesLeafref(n *Node) bool {
+	if n.Type != nil && n.Type.Base == "leafref" {
+		return true
+	}
+	for _, c := range n.Children {
+		if usesLeafref(c) {
+			return true
+		}
+	}
+	return false
+}
+
+func isLeafrefTarget(top []*Node, n *Node) bool {
+	var refers func(x *Node) bool
+	refers = func(x *Node) bool {
+		if x.Type != nil && x.Type.Base == "leafref" && x.Type.Path == "/"+n.Name {
+			return true
+		}
+		for _, c := range x.Children {
+			if refers(c) {
+				return true
+			}
+		}
+		return false
+	}
+	for _, t := range top {
+		if refers(t) {
+			return true
+		}
+	}
+	return false
 }
 
 // GenLayout draws how the module text is laid out without changing what it means: one-child cases become shorthand
